@@ -6,6 +6,10 @@ package rpc
 // every call carries in its body.
 
 import (
+	"github.com/VKCOM/tl/pkg/rpc/internal/gen/tlnet"
+	"github.com/VKCOM/tl/pkg/rpc/internal/gen/tlgo"
+	"github.com/VKCOM/tl/pkg/rpc/internal/gen/tlengine"
+	"runtime"
 	"sync/atomic"
 	"bytes"
 	"context"
@@ -34,6 +38,7 @@ const (
 type srvSpec struct {
 	Network    string `json:"net"`  // tcp4 | unix
 	Address    string `json:"addr"` // ip:port or path
+	DisableSpecial bool `json:"disable_special,omitempty"` // ServerWithDisableSpecialHandlers
 	MaxWorkers int    `json:"max_workers"`
 	ReqBuf     int    `json:"req_buf"`       // ServerWithRequestBufSize (the API clamps it to >= 512)
 	ReqMemLimit int   `json:"req_mem_limit"` // ServerWithRequestMemoryLimit (the API clamps it to >= 16 MiB)
@@ -64,6 +69,7 @@ type callSpec struct {
 	GateUs   int64  `json:"gate_us,omitempty"`  // gate handler: opened by the simulator at this simulated time after the run starts (0: never, until the end-of-run release)
 	DeadlineUs int64 `json:"dl_us,omitempty"`   // context deadline
 	CustomTimeoutMs int32 `json:"cto,omitempty"`
+	TagKind  int    `json:"tag_kind,omitempty"` // 0: the harness's own request tag; k: the k-th tag the server normally answers itself (only towards servers with DisableSpecialHandlers)
 	After    int    `json:"after,omitempty"` // 1-based index of a call that this one follows in the same goroutine (sequential use: pooled requests/responses are reused back to back)
 	CancelOnReply int `json:"cancel_on_reply,omitempty"` // the caller cancels this many canceller yields after the handler returned: the cancellation races with the arriving response
 	CancelAt int    `json:"cancel,omitempty"`   // a canceller goroutine cancels the context after this many of its own yields
@@ -132,6 +138,7 @@ func callsGen(r *rand.Rand, params map[string]any) callsScenario {
 			s.WithKey = true
 		}
 		s.ForceEnc = s.WithKey && r.IntN(3) == 0
+		s.DisableSpecial = r.IntN(4) == 0
 		if sc.Focus == "C39" {
 			// The public options clamp the limit to >= 16 MiB, so pressure comes from a large per-request
 			// take: every request accounts max(size, RequestBufSize); 1..4 of them fill the limit.
@@ -209,6 +216,9 @@ func callsGen(r *rand.Rand, params map[string]any) callsScenario {
 		c.RespExtra.Seed = r.Uint64()
 		if r.IntN(4) == 0 {
 			c.MutateReqExtra = 1 + r.IntN(3)
+		}
+		if sc.Servers[c.Server].DisableSpecial && r.IntN(2) == 0 {
+			c.TagKind = 1 + r.IntN(len(specialTags))
 		}
 		c.WrapErr = r.IntN(2) == 0
 		c.CtxTrace = r.IntN(4) == 0
@@ -637,7 +647,7 @@ func tokenOf(body []byte) (uint64, bool) {
 
 func (r *callsRun) handler(si int) HandlerFunc {
 	return func(ctx context.Context, hctx *HandlerContext) error {
-		if len(hctx.Request) < 12 || binary.LittleEndian.Uint32(hctx.Request) != reqTag {
+		if len(hctx.Request) < 12 || !knownReqTag(binary.LittleEndian.Uint32(hctx.Request)) {
 			r.fail("C38/garbled-request", fmt.Sprintf("server %d handler received a request that no client sent: %x", si, hctx.Request[:min(len(hctx.Request), 24)]))
 			return &Error{Code: -1, Description: "garbled"}
 		}
@@ -691,7 +701,14 @@ func (r *callsRun) handler(si int) HandlerFunc {
 		defer func() { r.mu.Lock(); r.running[si]--; r.load[si] -= take; r.mu.Unlock() }()
 		if k := cs.spec.CancelOnReply; k > 0 && !cs.spec.Callback {
 			defer vrt.Go(fmt.Sprintf("cancel-on-reply%d", cs.idx), func() {
-				for i := 0; i < k; i++ {
+				// the reply leaves now and reaches the client one network latency later: sleep that long (yields
+				// alone would all be spent before simulated time moves), then a few more scheduling points
+				d := 20 * time.Microsecond
+				if j := r.sc.JitterUs; j > 0 && k%2 == 0 {
+					d += time.Duration(k*7919%(j+1)) * time.Microsecond
+				}
+				time.Sleep(d)
+				for i := 0; i < k%40; i++ {
 					vrt.Yield("harness.cancel-on-reply")
 				}
 				r.mu.Lock()
@@ -763,7 +780,7 @@ func emptyRespBody(cs *callState) []byte {
 func (r *callsRun) syncHandler(si int) HandlerFunc {
 	return func(ctx context.Context, hctx *HandlerContext) error {
 		token, ok := tokenOf(hctx.Request)
-		if !ok || binary.LittleEndian.Uint32(hctx.Request) != reqTag {
+		if !ok || !knownReqTag(binary.LittleEndian.Uint32(hctx.Request)) {
 			return ErrNoHandler // the ordinary handler reports garbled requests
 		}
 		r.mu.Lock()
@@ -881,8 +898,32 @@ func (r *callsRun) checkReqMem(si int, where string) {
 	}
 }
 
+// Servers with DisableSpecialHandlers pass the engine.* / go.pprof / net.dumpUdpTargets request tags to the user
+// handler like any other request; calls to such servers sometimes use them.
+var specialTags = []uint32{tlengine.Pid{}.TLTag(), tlengine.Stat{}.TLTag(), tlengine.FilteredStat{}.TLTag(), tlengine.Version{}.TLTag(),
+	tlengine.SetVerbosity{}.TLTag(), tlengine.Sleep{}.TLTag(), tlengine.AsyncSleep{}.TLTag(), tlgo.Pprof{}.TLTag(), tlnet.DumpUdpTargets{}.TLTag()}
+
+func tagOf(sp callSpec) uint32 {
+	if sp.TagKind > 0 && sp.TagKind <= len(specialTags) {
+		return specialTags[sp.TagKind-1]
+	}
+	return reqTag
+}
+
+func knownReqTag(t uint32) bool {
+	if t == reqTag {
+		return true
+	}
+	for _, x := range specialTags {
+		if x == t {
+			return true
+		}
+	}
+	return false
+}
+
 func callBody(cs *callState) []byte {
-	b := binary.LittleEndian.AppendUint32(nil, reqTag)
+	b := binary.LittleEndian.AppendUint32(nil, tagOf(cs.spec))
 	b = binary.LittleEndian.AppendUint64(b, cs.token)
 	x := cs.token | 1
 	for i := 0; i < cs.spec.BodyLen&^3; i++ { // TL bodies are 4-byte aligned (protocol 0 insists on it)
@@ -978,6 +1019,8 @@ func (r *callsRun) judge(cs *callState) {
 			r.sim.Count("probe.call_longpoll_empty_response")
 		} else if !bytes.Equal(cs.body, wantRespBody(cs)) {
 			r.fail("C38/wrong-response", fmt.Sprintf("call %d returned success with a body (%d bytes, head %x) that is not the response its handler produced (%d bytes)", cs.idx, len(cs.body), cs.body[:min(len(cs.body), 16)], len(wantRespBody(cs))))
+			// what the handler set did not arrive: the same fact seen from C40 (body and extras travel together)
+			r.fail("C40/response-changed", fmt.Sprintf("call %d: the client was handed a success whose body (%d bytes) is not what its handler wrote (%d bytes); response extra seen %x", cs.idx, len(cs.body), len(wantRespBody(cs)), cs.respExtra))
 			return
 		}
 		if sp.Handler == "longpoll" && !cs.lpFinishedOK && !cs.lpEmptyWritten {
@@ -1375,6 +1418,10 @@ func (r *callsRun) body(s simI) {
 	r.mu.Unlock()
 	var servers []*Server
 	for si, sp := range sc.Servers {
+		var more []ServerOptionsFunc
+		if sp.DisableSpecial {
+			more = append(more, ServerWithDisableSpecialHandlers())
+		}
 		opts := []ServerOptionsFunc{ServerWithLogf(nolog), ServerWithHandler(r.handler(si)), ServerWithSyncHandler(r.syncHandler(si)), ServerWithMaxWorkers(sp.MaxWorkers),
 			ServerWithRequestBufSize(sp.ReqBuf), ServerWithRequestMemoryLimit(sp.ReqMemLimit), ServerWithConnReadBufSize(sp.RBuf), ServerWithConnWriteBufSize(sp.WBuf),
 			ServerWithTrustedSubnetGroups([][]string{{"10.9.0.0/16"}})}
@@ -1384,6 +1431,7 @@ func (r *callsRun) body(s simI) {
 		if sp.ForceEnc {
 			opts = append(opts, ServerWithForceEncryption(true))
 		}
+		opts = append(opts, more...)
 		srv := NewServer(opts...)
 		servers = append(servers, srv)
 		ln := r.net.Listen(sp.Network, sp.Address)
@@ -1613,6 +1661,11 @@ func (r *callsRun) summary(out *vrt.RunOut, stats map[string]int) {
 }
 
 func callsExec(t *testing.T, sc callsScenario, tape *vrt.Tape, keepLog bool) (out vrt.RunOut) {
+	for i := range sc.Calls { // special request tags only towards servers that hand them to the user handler
+		if c := &sc.Calls[i]; c.Server >= len(sc.Servers) || !sc.Servers[c.Server].DisableSpecial {
+			c.TagKind = 0
+		}
+	}
 	cryptotest.SetGlobalRandom(t, sc.CryptoSeed)
 	r := &callsRun{sc: sc, byToken: map[uint64]*callState{}}
 	if sc.Race {
@@ -1674,7 +1727,25 @@ func callsExecRace(t *testing.T, r *callsRun) (out vrt.RunOut) {
 	func() {
 		defer func() {
 			if p := recover(); p != nil {
-				ps.Fail("C38/goroutine-leak-or-deadlock", fmt.Sprintf("after both sides were closed the bubble did not wind down: %v", p))
+				buf := make([]byte, 1<<20)
+				buf = buf[:runtime.Stack(buf, true)]
+				var where []string
+				for _, blk := range strings.Split(string(buf), "\n\n") {
+					if strings.Contains(blk, "synctest bubble") && !strings.Contains(blk, "[running") {
+						ls := strings.Split(blk, "\n")
+						w := ls[0]
+						for _, l := range ls[1:] {
+							if strings.Contains(l, "pkg/rpc.") || strings.Contains(l, "semaphore.") {
+								w += " <- " + strings.TrimSpace(l)
+								if strings.Count(w, "<-") >= 3 {
+									break
+								}
+							}
+						}
+						where = append(where, w)
+					}
+				}
+				ps.Fail("C38/goroutine-leak-or-deadlock", fmt.Sprintf("after both sides were closed the bubble did not wind down: %v; goroutines still in the bubble: %s", p, strings.Join(where, " | ")))
 			}
 		}()
 		synctest.Test(t, func(t *testing.T) {
@@ -1700,6 +1771,7 @@ func callsExecRace(t *testing.T, r *callsRun) (out vrt.RunOut) {
 				}
 			}()
 			r.body(ps)
+			time.Sleep(time.Second) // the bubble's clock stops when its root returns: let sleeping helper goroutines (cancel-on-reply) finish first
 			close(stop)
 		})
 	}()
